@@ -512,6 +512,135 @@ func (P *Program) runStructural(spec string) []StructObl {
 			return fail("no supervised loop handle found (renamed?)")
 		}
 		return ok(fmt.Sprintf("%d loop handle(s), all supervised or returned", found))
+	case "frees-slot-before-send":
+		// frees-slot-before-send <funcKey>: the hand-off function tests "the buffer is full" as len(ch) == cap(ch) (or >=)
+		// and, when it is, takes one value out with a non-blocking receive before it sends - so the send that follows
+		// cannot block behind a worker that is busy.  With any weaker test a pending value is never discarded and the main
+		// loop hangs in the send while the worker sits in a long SPI call.
+		fn := P.fnByKey[fs[1]]
+		if fn == nil {
+			return fail("function %s not found", fs[1])
+		}
+		originIsBuiltin := func(v ssa.Value, name string) bool {
+			seen := map[ssa.Value]bool{}
+			var rec func(v ssa.Value, d int) bool
+			rec = func(v ssa.Value, d int) bool {
+				if v == nil || seen[v] || d > 4 {
+					return false
+				}
+				seen[v] = true
+				if c, ok := v.(*ssa.Call); ok {
+					if b, ok := c.Call.Value.(*ssa.Builtin); ok && b.Name() == name {
+						return true
+					}
+				}
+				if u, ok := v.(*ssa.UnOp); ok && u.Op == token.MUL {
+					if a, ok := u.X.(*ssa.Alloc); ok {
+						for _, ref := range *a.Referrers() {
+							if st, ok := ref.(*ssa.Store); ok && st.Addr == a && rec(st.Val, d+1) {
+								return true
+							}
+						}
+					}
+				}
+				return false
+			}
+			return rec(v, 0)
+		}
+		for _, b := range fn.Blocks {
+			for _, ins := range b.Instrs {
+				bin, ok := ins.(*ssa.BinOp)
+				if !ok {
+					continue
+				}
+				full := false
+				switch bin.Op {
+				case token.EQL, token.GEQ:
+					full = originIsBuiltin(bin.X, "len") && originIsBuiltin(bin.Y, "cap")
+				case token.LEQ:
+					full = originIsBuiltin(bin.X, "cap") && originIsBuiltin(bin.Y, "len")
+				}
+				if full && bin.Op == token.EQL {
+					full = true
+				}
+				if !full {
+					continue
+				}
+				// the branch taken when the test holds must contain a non-blocking select with a receive arm
+				for _, ref := range *bin.Referrers() {
+					iff, ok := ref.(*ssa.If)
+					if !ok {
+						continue
+					}
+					then := iff.Block().Succs[0]
+					for _, ti := range then.Instrs {
+						if sel, ok := ti.(*ssa.Select); ok && !sel.Blocking {
+							for _, st := range sel.States {
+								if st.Dir == types.RecvOnly {
+									return ok2struct(label, spec, "full-buffer test and non-blocking drain found")
+								}
+							}
+						}
+					}
+				}
+			}
+		}
+		return fail("%s has no `len(ch) == cap(ch)` test followed by a non-blocking receive: a full buffer is not freed before the send", fs[1])
+	case "callers-of":
+		// callers-of <callee=fn,fn;callee=fn,...>: the named functions are called only from the listed library functions
+		// (closures inside them included).  Used for the constructors of membuffers readers over bytes that came from
+		// outside: they belong in the recover-guarded parse functions, where every field is read once (F13).
+		allowedBy := map[string]map[string]bool{}
+		for _, part := range strings.Split(fs[1], ";") {
+			kv := strings.SplitN(part, "=", 2)
+			if len(kv) != 2 {
+				return fail("bad argument %q", part)
+			}
+			allowedBy[kv[0]] = map[string]bool{}
+			for _, f := range strings.Split(kv[1], ",") {
+				allowedBy[kv[0]][f] = true
+			}
+		}
+		found := 0
+		for _, fn := range P.allRepoFuncs() {
+			if !P.isLibrary(fn) {
+				continue
+			}
+			for _, b := range fn.Blocks {
+				for _, ins := range b.Instrs {
+					c, isCall := ins.(ssa.CallInstruction)
+					if !isCall {
+						continue
+					}
+					callee := c.Common().StaticCallee()
+					if callee == nil || callee.Pkg == nil {
+						continue
+					}
+					name := callee.Pkg.Pkg.Name() + "." + callee.Name()
+					al, watched := allowedBy[name]
+					if !watched {
+						continue
+					}
+					if fn.Pkg != nil && fn.Pkg.Pkg == callee.Pkg.Pkg {
+						continue // the callee's own (generated) package
+					}
+					found++
+					ok2 := false
+					for g := fn; g != nil; g = g.Parent() {
+						if al[P.fnKey(g)] {
+							ok2 = true
+						}
+					}
+					if !ok2 {
+						return fail("%s calls %s at %s; only %s may", P.fnKey(fn), name, P.fset.Position(ins.Pos()), fs[1])
+					}
+				}
+			}
+		}
+		if found == 0 {
+			return fail("none of the watched calls was found (renamed?)")
+		}
+		return ok(fmt.Sprintf("%d call site(s), all where listed", found))
 	case "goroutines-only-via":
 		// goroutines-only-via <callee=fn,fn;callee=fn,...>: library code contains no `go` statement, and the functions
 		// that start a goroutine (the supervisor, the timer) are called only from the listed functions.  The proofs of
@@ -901,6 +1030,10 @@ func (P *Program) runStructural(spec string) []StructObl {
 		return ok("target not in the static call graph of the roots")
 	}
 	return fail("unknown structural obligation kind %q", fs[0])
+}
+
+func ok2struct(label, spec, detail string) []StructObl {
+	return []StructObl{{Label: label, What: spec, OK: true, Detail: detail}}
 }
 
 func structOfPtrType(t types.Type) (*types.Struct, types.Type) {
